@@ -572,6 +572,10 @@ def main(argv):
                     return r.returncode
         apply_env_mode_in_child()
         ctx = Ctx(pid, body.get('tier', tier), body.get('seed', seed))
+        if isinstance(body.get('case'), dict) and body['case'].get('kind') == 'escaped':
+            print(f"this case records an exception that escaped from the library ({body.get('key')}); it has no input of its "
+                  f"own - re-run ./check {pid} --tier {body.get('tier', tier)} --seed {body.get('seed', seed)}")
+            return 2
         try:
             mod.replay(ctx, unjson(body['case']))
         except HarnessAbort as exc:
